@@ -1,4 +1,47 @@
-# C14 pub/sub: glob matcher + PubSubManager, inline container models (CAP = 4)
+# C14 pub/sub: glob matcher (fully symbolic) + PubSubManager (single-step instances), inline models.
+# NOT registered because they do not finish (see the build report for C13/C14): PubSubManager::publish
+# from any non-empty state (out of memory in propositional reduction even for ONE subscription, concrete
+# ids, stubbed matcher, fs_array=4096), multi-instance (un)subscribe harnesses, unsubscribe_all.
+# Their harness code is kept in ovl_pubsub.rs (publish_case, unsub_all_kind_case, unsubscribe_all_case).
 group("psub", family="inline", shrinks={}, overlays={"src/pubsub.rs": "ovl_pubsub.rs"})
-for n in ("c14_glob_p2_t3_rest", "c14_glob_p3_t2_rest", "c14_glob_p3_t3_rest", "c14_glob_p4_t3_rest", "c14_glob_class_kf"):
-    K(n, "psub", ["C14"], tier="quick", timeout=1500, desc="", encodes=[], bounds="", stubs=[])
+FMT = ["alloc::fmt::format -> empty String (no message text is part of the property)"]
+REF = ("reference = the recurrence of Redis util.c stringmatchlen (nocase=0: * ? [..] [^..] ranges, backslash escape, malformed classes as in C) "
+       "evaluated bottom-up over a table; cross-checked natively against a C transcription on 1.15 M pattern/text pairs; one deliberate reading: "
+       "'*' also matches an EMPTY text (glob semantics, ferrous' own unit test; the C loop is skipped for empty text)")
+
+K("c14_glob_p2_t3_rest", "psub", ["C14"], tier="quick", timeout=900,
+  desc="pattern_matches(p,t) == reference for every pattern of length 0..2 and text of length 0..3 without '[' in the pattern; " + REF,
+  encodes=["pubsub::pattern_matches"], bounds="12 length combinations, all bytes symbolic (full 0..255); unwind 7",
+  assumptions=["region split: patterns containing '[' are in c14_glob_class_kf"], stubs=[])
+K("c14_glob_p3_t2_rest", "psub", ["C14"], tier="quick", timeout=900,
+  desc="pattern_matches == reference, pattern length 3, text length 0..2, no '[' in the pattern",
+  encodes=["pubsub::pattern_matches"], bounds="3 length combinations, all bytes symbolic; unwind 7",
+  assumptions=["region split: patterns containing '[' are in c14_glob_class_kf"], stubs=[])
+K("c14_glob_p3_t3_rest", "psub", ["C14"], tier="quick", timeout=900,
+  desc="pattern_matches == reference, pattern length 3, text length 3, no '[' in the pattern",
+  encodes=["pubsub::pattern_matches"], bounds="3+3 symbolic bytes; unwind 8",
+  assumptions=["region split: patterns containing '[' are in c14_glob_class_kf"], stubs=[])
+K("c14_glob_p4_t3_rest", "psub", ["C14"], tier="quick", timeout=900,
+  desc="pattern_matches == reference, pattern length 4, text length 3, no '[' in the pattern",
+  encodes=["pubsub::pattern_matches"], bounds="4+3 symbolic bytes; unwind 9",
+  assumptions=["region split: patterns containing '[' are in c14_glob_class_kf"], stubs=[])
+K("c14_glob_class_kf", "psub", ["C14"], tier="quick", timeout=900, expect="kf:KF-C14-glob-class",
+  desc="patterns containing '[': Redis character classes ([abc], [^a], [a-z]); ferrous' pub/sub matcher treats '[' as a literal byte (PSUBSCRIBE news.[ab] receives nothing)",
+  encodes=["pubsub::pattern_matches"], bounds="pattern length 1..3 with a '[', text length 1..2, bytes symbolic; unwind 7", stubs=[])
+K("c14_sub_second_conn", "psub", ["C14"], tier="quick", timeout=1200, fs_array=4096,
+  desc="SUBSCRIBE x by a second connection while another one is subscribed to x: one acknowledgement naming x with count 1 and is_new; afterwards the three maps equal the model (channels[x] = both connections, one record per connection, is_subscribed)",
+  encodes=["PubSubManager::subscribe", "PubSubManager::is_subscribed"],
+  bounds="one instance: manager built on the stack with 1 subscription; connection ids concrete (11, 22: ids are used in == / as keys only); CAP=4; unwind 6", stubs=FMT)
+K("c14_unsub_last", "psub", ["C14"], tier="quick", timeout=1200, fs_array=4096,
+  desc="UNSUBSCRIBE x by the only subscriber: one acknowledgement naming x with count 0; channel entry and connection record are removed from all three maps",
+  encodes=["PubSubManager::unsubscribe", "PubSubManager::is_subscribed"],
+  bounds="one instance: 1 subscription; ids concrete; CAP=4; unwind 6", stubs=FMT)
+K("c14_unsub_unknown_conn_kf", "psub", ["C14", "C05"], tier="quick", timeout=1200, fs_array=4096, expect="kf:KF-C14-unsub-noack",
+  desc="UNSUBSCRIBE x by a connection that has no subscription: Redis acknowledges every named channel (count 0); ferrous returns no acknowledgement at all (the client waits forever for the reply)",
+  encodes=["PubSubManager::unsubscribe"], bounds="one instance: empty manager; ids concrete", stubs=FMT)
+
+# Engine M fallback for PubSubManager::publish (out of memory under Kani): one delivery per
+# matching SUBSCRIPTION means no receiver may be skipped because its connection was already seen.
+M("c14_publish_no_dedup", ["C14"], "reach_allow", tier="quick",
+  desc="MIR of PubSubManager::publish: every matching (connection, channel|pattern) subscription is pushed to the receiver list unconditionally - no HashSet::insert / contains on connection ids guards the push (a client subscribed to a channel AND a matching pattern gets one delivery per subscription, and PUBLISH counts both)",
+  fn=r"PubSubManager::publish$|pubsub::.*::publish$", deny=[r"HashSet::(insert|contains)$"], must_reach=[r"Vec::push$"])
